@@ -207,8 +207,11 @@ def units(tier):
             us.append(Unit("1.sanitized_output[n=%d,dest=%s]" % (n, dk), M, "sanitized_output", dict(n=n, dest_kind=dk), 1800))
     for n in range(1, (4 if tier == "quick" else 5) + 1):
         us.append(Unit("2.link_gate[n=%d]" % n, M, "link_gate", dict(n=n), 1800))
-    for kinds in (["f", "l", "lf", "ld", "llf"] if tier == "quick" else ["f", "l", "d", "lf", "fl", "ld", "dl", "ll", "llf", "lfl", "lld", "dlf"]):
+    for kinds in (["f", "l", "lf", "ld"] if tier == "quick" else ["f", "l", "d", "lf", "fl", "ld", "dl", "ll", "llf", "lfl", "lld", "dlf"]):
         us.append(Unit("3.physical_step[%s]" % kinds, M, "physical_step", dict(kinds=kinds), 3000))
+    # nested names fixed, every pair of link targets symbolic (the full name x target product is in the thorough tier)
+    for kinds, names in [("llf", ["a", "a/b", "a/b/c.txt"]), ("lld", ["a", "a/b", "a/b/c"]), ("lll", ["a", "a/b", "a/b/c"])]:
+        us.append(Unit("3.physical_step[%s,nested names]" % kinds, M, "physical_step", dict(kinds=kinds, fixed_names=names), 3000))
     return us
 
 
@@ -328,7 +331,7 @@ def physical_step(kinds, fixed_names=None):
     ni = [eng.sym_int("name%d" % i, 3) for i in range(n)]
     ti = [eng.sym_int("target%d" % i, 3) for i in range(n)]
     size = eng.sym_int("size", 20)
-    table = fixed_names or NAME_TABLE
+    table = NAME_TABLE
 
     def pick(e, v, tbl):
         for k in range(len(tbl) - 1):
@@ -345,7 +348,7 @@ def physical_step(kinds, fixed_names=None):
         names, targets, entries = [], [], []
         for i, k in enumerate(kinds):
             e.assume(e.compare(ast.Lt(), ni[i], len(table)))
-            nm = table[i] if fixed_names and len(fixed_names) == n and False else table[pick(e, ni[i], table)]
+            nm = fixed_names[i] if fixed_names else table[pick(e, ni[i], table)]
             names.append(nm)
             if k == "l":
                 e.assume(e.compare(ast.Lt(), ti[i], len(TARGET_TABLE)))
@@ -399,7 +402,7 @@ def physical_step(kinds, fixed_names=None):
     def entries_of(w):
         out = []
         for i, k in enumerate(kinds):
-            nm = table[min(int(w.get("name%d" % i, 0)), len(table) - 1)]
+            nm = fixed_names[i] if fixed_names else table[min(int(w.get("name%d" % i, 0)), len(table) - 1)]
             tg = TARGET_TABLE[min(int(w.get("target%d" % i, 0)), len(TARGET_TABLE) - 1)] if k == "l" else None
             out.append((k, nm, tg))
         return out
